@@ -66,6 +66,9 @@ let string_of_bytes (l : n list) : string =
 let cur : string slots ref = ref []
 let stack : string slots list ref = ref []
 let blocks : (string list * string list) list ref = ref []   (* newest first *)
+(* TTLB: the block summaries as passed to AddBlockSummary (targets, numAdds) with the leaves the targets name in
+   the reference state before the block; newest first *)
+let ttlb : (n list * n * string list option) list ref = ref []
 let ctx_cache : string ctx option ref = ref None
 let ctx () = match !ctx_cache with
   | Some c -> c
@@ -183,7 +186,7 @@ let handle (toks : string list) =
     case_id := id
   | ["SHA"; inp; out] ->
     check "selftest" "sha" (String.equal (Sha.sha512_256 (unhex inp)) (unhex out)) (fun () -> "sha512_256 mismatch")
-  | ["RESET"] -> set_state []; stack := []; blocks := []
+  | ["RESET"] -> set_state []; stack := []; blocks := []; ttlb := []
   | ["BLOCK"; dels; adds] ->
     stack := !cur :: !stack;
     blocks := (hashes_of dels, hashes_of adds) :: !blocks;
@@ -362,6 +365,34 @@ let handle (toks : string list) =
     check "prop" ("TTLS." ^ label) (exp = got)
       (fun () -> Printf.sprintf "spec=%s impl=%s"
           (String.concat "|" (List.map (fun b -> String.concat "," (List.map (fun (p, v) -> p ^ ":" ^ v) b)) exp)) t)
+  (* TTLB targets numAdds : the arguments of the AddBlockSummary call of the block that the NEXT BLOCK event applies *)
+  | ["TTLB"; targets; numadds] ->
+    let ts = ns_of targets in
+    ttlb := (ts, n_of_string numadds, leaves_at (ctx ()) ts) :: !ttlb
+  (* TTLM label ttls : mirror of AddBlockSummary + genTTLs (Model/TTL.v) on the TTLB summaries of the case = cs.ttls,
+     entry by entry in the order genTTLs appends them *)
+  | ["TTLM"; label; t] ->
+    let summaries = List.rev !ttlb and bl = List.rev !blocks in
+    (* the summaries describe the blocks of the case: same number, and the targets name exactly the deleted leaves *)
+    let same_block (_, na, resolved) (dels, adds) =
+      (match resolved with
+       | Some hs -> List.sort compare hs = List.sort compare dels
+       | None -> false) && int_of_n na = List.length adds in
+    if not (List.length summaries = List.length bl && List.for_all2 same_block summaries bl) then
+      fail "harness" ("TTLM." ^ label) "the TTLB summaries do not describe the blocks of the case"
+    else begin
+      let string_of_zz = function
+        | Z0 -> "0" | Zpos p -> Zr.to_string (z_of_pos p)
+        | Zneg p -> Zr.to_string (Zr.sub (Zr.shift_left Zr.one 64) (z_of_pos p)) in
+      let model = (match ttl_run (List.map (fun (ts, na, _) -> (ts, na)) summaries) with
+          | None -> "panic"
+          | Some ttls ->
+            String.concat "|" (List.map (fun b ->
+                if b = [] then "-" else String.concat "," (List.map (fun (p, v) -> string_of_n p ^ ":" ^ string_of_zz v) b)) ttls)) in
+      check "mirror" ("TTLM." ^ label) (String.equal model t)
+        (fun () -> Printf.sprintf "summaries=%s model=%s impl=%s"
+            (String.concat ";" (List.map (fun (ts, na, _) -> str_ns ts ^ "+" ^ string_of_n na) summaries)) model t)
+    end
   (* WIREPOL label numdels hex : the bytes Pollard.WriteTo produced = encoding of the reference forest *)
   | ["WIREPOL"; label; numdels; hx] ->
     let c = ctx () in
